@@ -17,6 +17,11 @@ def handle (args : List String) : String :=
          !(["none", "tablename", "transaction", "transaction-bucket"].contains pmethod) then "bad-op" else
       s!"tick={msToNs t} upd={msToNs u} max={msToNs m} workers={w} chans={w} depth={d} mem={mm} routing={routing} pmethod={pmethod} buckets={b} wl={wl} rx={rx} list={list} noold={noold}"
     | _, _, _, _, _, _, _ => "bad-op"
+  | ["startworkers", n] =>
+    -- one worker per queue, each serving its own (C17 `runner_starts_every_stage` has the manager started; this is inside it)
+    match n.toNat? with
+    | some n => s!"queues={n} served={",".intercalate ((List.range n).map toString)}"
+    | none => "bad-op"
   | ["kafkaput", what] =>
     -- written iff the broker accepted every message; a rejected batch stops the worker (C14 `kafka_failstop`)
     if what == "accept" then "written=1 stopped=0" else if what == "reject" then "written=0 stopped=1" else "bad-op"
